@@ -1013,7 +1013,11 @@ def _kw_probe_worker(job):
     import parglare
     from parglare import GLRParser, Grammar, Parser
     from lib import impl
-    k1, k2, k3, kwre, alias = job
+    k1, k2, k3, kwre, alias, optk = job
+    import re as _re
+    # Grammar options must reach the imported files exactly as they reach the root file
+    opts = {"": {}, "ignore_case": {"ignore_case": True},
+            "re_flags": {"re_flags": _re.MULTILINE | _re.IGNORECASE}}[optk]
     tmp = tempfile.mkdtemp(prefix="c20kw")
     out = {"job": list(job), "rows": []}
     try:
@@ -1034,12 +1038,15 @@ def _kw_probe_worker(job):
                 for c in (k3 + " y", k3 + "y"):
                     ins.append(a + b + c + ";")
         ins += ["x;", k1 + " x;", k1 + "x;", k2 + ";", k1 + k2 + " x " + k3 + " y;"]
+        if optk:
+            ins += [w.upper() for w in ins] + [w.title() for w in ins[:6]] + \
+                   [k1 + " " + k2.upper() + " x " + k3 + " Y;", k1.upper() + " " + k2 + " X " + k3.upper() + " y;"]
         for cls, cname in ((Parser, "lr"), (GLRParser, "glr")):
             with impl.time_limit(30), impl.quiet():
-                gm = Grammar.from_file(os.path.join(tmp, "root.pg"))
+                gm = Grammar.from_file(os.path.join(tmp, "root.pg"), **opts)
                 gm.file_path = None
                 pm = cls(gm)
-                pf = cls(Grammar.from_string(flat))
+                pf = cls(Grammar.from_string(flat, **opts))
             for w in ins:
                 r = []
                 for p in (pm, pf):
@@ -1065,7 +1072,11 @@ def keyword_imports(ctx, stats):
     words = ["let", "for", "in", "if", "to", "of", "do"]
     for _ in range(6 if ctx.quick() else 60):
         k1, k2, k3 = rng.sample(words, 3)
-        jobs.append((k1, k2, k3, rng.choice(["/\\w+/", "/[a-z]+/"]), rng.choice(["lib", "l", "stmts"])))
+        jobs.append((k1, k2, k3, rng.choice(["/\\w+/", "/[a-z]+/"]), rng.choice(["lib", "l", "stmts"]), ""))
+    for optk in ("ignore_case", "re_flags"):
+        for _ in range(3 if ctx.quick() else 20):
+            k1, k2, k3 = rng.sample(words, 3)
+            jobs.append((k1, k2, k3, rng.choice(["/\\w+/", "/[a-z]+/"]), rng.choice(["lib", "l", "stmts"]), optk))
     with mp.Pool(common.NPROC) as pool:
         outs = pool.map(_kw_probe_worker, jobs, chunksize=1)
     stats["keyword_import_grammars"] = len(outs)
@@ -1079,8 +1090,10 @@ def keyword_imports(ctx, stats):
         for cname, w, a, b in o["rows"]:
             stats["keyword_import_parses"] += 1
             if a != b and "Timeout" not in (a[1], b[1]):
-                ctx.violation("KEYWORD with imports: %s on %r modular %r, flattened %r" % (cname, w, a, b),
-                              {"directory": o["files"], "flat": o["flat"], "input": w}, key="kw-imp-" + cname)
+                ctx.violation("KEYWORD with imports%s: %s on %r modular %r, flattened %r"
+                              % ((" and Grammar option " + o["job"][5]) if o["job"][5] else "", cname, w, a, b),
+                              {"directory": o["files"], "flat": o["flat"], "input": w, "grammar_option": o["job"][5]},
+                              key="kw-imp-" + cname + o["job"][5])
                 break
 
 
